@@ -8,3 +8,5 @@ open Biogo.Properties.C15_merge
 #print axioms merger_self_clear_of_diagonal
 #print axioms merger_output_within_rows
 #print axioms merger_total
+#print axioms clipping_never_grows
+#print axioms merger_output_rows_any_letters
